@@ -25,6 +25,26 @@ package ast
 //@     invariant forall k in 1..len(lines) :: 1 <= lines[k] && lines[k] <= len(str) && str[lines[k]-1] == '\n'
 //@     invariant forall p in 0..off :: str[p] == '\n' ==> exists k in 1..len(lines) :: lines[k] == p + 1
 
+// Accessors used by the language server's position mapping (C23).
+//@ func Node.Offset
+//@   option nilable-receiver
+//@   ensures n == nil ==> result == 0
+//@   ensures n != nil ==> result == n.offset
+
+//@ func Node.Tree
+//@   option nilable-receiver
+//@   ensures n == nil ==> result == nil
+//@   ensures n != nil ==> result == n.tree
+
+//@ func Tree.Text
+//@   ensures sameslice(result, t.content)
+
+//@ func Node.Text
+//@   option nilable-receiver
+//@   requires n != nil ==> n.tree != nil && 0 <= n.offset && n.offset <= n.endoffset && n.endoffset <= len(n.tree.content)
+//@   ensures n == nil ==> len(result) == 0
+//@   ensures n != nil ==> sameslice(result, n.tree.content[n.offset:n.endoffset])
+
 // ---- the tree builder (C20): nodes arrive in post-order, each one adopts the stack entries it covers ----
 
 // wfStack: every stack entry is a node; entries are pairwise distinct and sorted by start offset
